@@ -10,6 +10,7 @@ import (
 	"sort"
 	"strings"
 	"sync"
+	vgen "verifharness/gen"
 
 	"pgregory.net/rapid"
 
@@ -75,7 +76,7 @@ func (g *gen) mark(f string) { g.feat[f] = true }
 // suffix draws an alphanumeric suffix that is new among test/failing names.
 func (g *gen) suffix() string {
 	s := rapid.SampledFrom(suffixWords).Draw(g.t, "word")
-	if rapid.IntRange(0, 2).Draw(g.t, "two") == 0 {
+	if vgen.Range(g.t, "two", 0, 2) == 0 {
 		s += rapid.SampledFrom(suffixWords).Draw(g.t, "word2")
 	}
 	for g.usedTF[s] || g.usedFn["test"+s] || g.usedFn["failing_test"+s] {
@@ -111,7 +112,7 @@ func (g *gen) freshAny(stem string) string {
 
 // body returns the statements of a niladic function returning bool.
 func (g *gen) body() string {
-	switch rapid.IntRange(0, 7).Draw(g.t, "body") {
+	switch vgen.Range(g.t, "body", 0, 7) {
 	case 0, 1:
 		return "\treturn true\n"
 	case 2:
@@ -139,7 +140,7 @@ func (g *gen) body() string {
 // lexical decides whether a declaration whose recognition needs Go's lexical
 // structure (not just the raw line) may be produced.
 func (g *gen) lexical() bool {
-	if rapid.IntRange(0, 3).Draw(g.t, "lexical") != 0 {
+	if vgen.Range(g.t, "lexical", 0, 3) != 0 {
 		return false
 	}
 	if switchOn(swLineScan) {
@@ -152,11 +153,11 @@ func (g *gen) lexical() bool {
 // niladic renders `func name() bool` in one of the gofmt-stable spellings.
 func (g *gen) niladic(name string) string {
 	doc := ""
-	if rapid.IntRange(0, 4).Draw(g.t, "doc") == 0 {
+	if vgen.Range(g.t, "doc", 0, 4) == 0 {
 		doc = fmt.Sprintf("// %s checks something.\n// func testDoc%d() bool {\n", name, g.id())
 		g.mark("doc-comment-decoy")
 	}
-	switch rapid.IntRange(0, 5).Draw(g.t, "shape") {
+	switch vgen.Range(g.t, "shape", 0, 5) {
 	case 0:
 		return doc + "func " + name + "() bool { return true }\n"
 	case 1:
@@ -170,7 +171,7 @@ func (g *gen) niladic(name string) string {
 
 func (g *gen) testChunk(failing bool) chunk {
 	var s string
-	collide := rapid.IntRange(0, 7).Draw(g.t, "collide") == 0
+	collide := vgen.Range(g.t, "collide", 0, 7) == 0
 	other := g.plain
 	if !failing {
 		other = g.failing
@@ -218,7 +219,7 @@ func (g *gen) testChunk(failing bool) chunk {
 }
 
 func (g *gen) otherChunk(fileIdx int) chunk {
-	switch k := rapid.IntRange(0, 11).Draw(g.t, "other"); k {
+	switch k := vgen.Range(g.t, "other", 0, 11); k {
 	case 0:
 		name := "disabled_test" + rapid.SampledFrom(suffixWords).Draw(g.t, "dword")
 		if rapid.Bool().Draw(g.t, "dfail") {
@@ -252,7 +253,7 @@ func (g *gen) otherChunk(fileIdx int) chunk {
 		}
 		g.recvMeth[recv+"."+name] = true
 		r := "(r " + recv + ")"
-		switch rapid.IntRange(0, 2).Draw(g.t, "mrecv") {
+		switch vgen.Range(g.t, "mrecv", 0, 2) {
 		case 1:
 			r = "(r *" + recv + ")"
 		case 2:
@@ -267,7 +268,7 @@ func (g *gen) otherChunk(fileIdx int) chunk {
 		// test-prefixed names outside test[A-Za-z0-9]+ (only agreement is asserted)
 		base := rapid.SampledFrom([]string{"test_", "testFoo_bar", "testÉcole", "failing_test_", "testΩ", "test_Foo", "failing_testBar_", "testé"}).Draw(g.t, "loose")
 		name := g.freshAny(base + fmt.Sprint(g.id()))
-		if rapid.IntRange(0, 5).Draw(g.t, "bare") == 0 && !g.usedFn["test"] {
+		if vgen.Range(g.t, "bare", 0, 5) == 0 && !g.usedFn["test"] {
 			name = "test"
 			g.usedFn[name] = true
 		}
@@ -292,7 +293,7 @@ func (g *gen) otherChunk(fileIdx int) chunk {
 		}
 		return chunk{kind: "decl", src: fmt.Sprintf("/*\n func testFake%d() bool {\n*/\n\ntype t%d struct{ x uint64 }\n", g.id(), g.id())}
 	default:
-		if rapid.IntRange(0, 9).Draw(g.t, "long") == 0 && g.lexical() {
+		if vgen.Range(g.t, "long", 0, 9) == 0 && g.lexical() {
 			g.mark("lexical:long-line")
 			return chunk{kind: "decl", src: fmt.Sprintf("var long%d = \"%s\"\n", g.id(), strings.Repeat("x", 66000))}
 		}
@@ -308,12 +309,12 @@ func gofmt(src string) (string, error) {
 // genCase draws one package directory.
 func genCase(t *rapid.T) (Case, error) {
 	g := &gen{t: t, usedFn: map[string]bool{}, usedTF: map[string]bool{}, feat: map[string]bool{}, counts: map[string]int{}, recvMeth: map[string]bool{}}
-	nFiles := rapid.IntRange(1, 6).Draw(t, "nfiles")
+	nFiles := vgen.Range(t, "nfiles", 1, 6)
 	stems := rapid.Permutation(fileStems).Draw(t, "stems")[:nFiles]
 
-	nTests := rapid.IntRange(0, 6).Draw(t, "ntests")
-	nFailing := rapid.IntRange(0, 3).Draw(t, "nfailing")
-	nOther := rapid.IntRange(0, 12).Draw(t, "nother")
+	nTests := vgen.Range(t, "ntests", 0, 6)
+	nFailing := vgen.Range(t, "nfailing", 0, 3)
+	nOther := vgen.Range(t, "nother", 0, 12)
 	if nTests+nFailing == 0 {
 		if switchOn(swZeroTests) {
 			ev.Prune(swZeroTests)
@@ -341,7 +342,7 @@ func genCase(t *rapid.T) (Case, error) {
 		kinds = rapid.Permutation(kinds).Draw(t, "order")
 	}
 	for _, k := range kinds {
-		fi := rapid.IntRange(0, nFiles-1).Draw(t, "file")
+		fi := vgen.Range(t, "file", 0, nFiles-1)
 		var c chunk
 		switch k {
 		case 0:
@@ -358,7 +359,7 @@ func genCase(t *rapid.T) (Case, error) {
 	srcOf := make([]string, nFiles)
 	for fi := 0; fi < nFiles; fi++ {
 		var b strings.Builder
-		if rapid.IntRange(0, 3).Draw(t, "filedoc") == 0 {
+		if vgen.Range(t, "filedoc", 0, 3) == 0 {
 			fmt.Fprintf(&b, "// File %d.\n// func testFileDoc%d() bool {\n", fi, g.id())
 		}
 		b.WriteString("package " + pkgDirName + "\n")
@@ -384,8 +385,8 @@ func genCase(t *rapid.T) (Case, error) {
 	}
 
 	// ---- decoy files ----
-	armed := func() bool { return rapid.IntRange(0, 4).Draw(t, "armed") != 0 }
-	nTestFiles := rapid.IntRange(0, 2).Draw(t, "ntestfiles")
+	armed := func() bool { return vgen.Range(t, "armed", 0, 4) != 0 }
+	nTestFiles := vgen.Range(t, "ntestfiles", 0, 2)
 	for i := 0; i < nTestFiles; i++ {
 		stem := rapid.SampledFrom(fileStems).Draw(t, "tstem")
 		name := stem + "_test.go"
@@ -394,7 +395,7 @@ func genCase(t *rapid.T) (Case, error) {
 		}
 		var b strings.Builder
 		pkg := pkgDirName
-		if rapid.IntRange(0, 4).Draw(t, "external") == 0 {
+		if vgen.Range(t, "external", 0, 4) == 0 {
 			pkg += "_test"
 		}
 		b.WriteString("package " + pkg + "\n")
@@ -421,7 +422,7 @@ func genCase(t *rapid.T) (Case, error) {
 			}
 		}
 	}
-	if rapid.IntRange(0, 2).Draw(t, "gold") != 0 {
+	if vgen.Range(t, "gold", 0, 2) != 0 {
 		name := rapid.SampledFrom([]string{pkgDirName, "pkg", "a"}).Draw(t, "goldstem") + ".gold.v"
 		var b strings.Builder
 		b.WriteString("(* autogenerated from example.com/semantics *)\nFrom Perennial.goose_lang Require Import prelude.\n\n")
@@ -443,9 +444,9 @@ func genCase(t *rapid.T) (Case, error) {
 			}
 		}
 	}
-	nBackups := rapid.IntRange(0, 2).Draw(t, "nbackups")
+	nBackups := vgen.Range(t, "nbackups", 0, 2)
 	for i := 0; i < nBackups; i++ {
-		fi := rapid.IntRange(0, nFiles-1).Draw(t, "bfile")
+		fi := vgen.Range(t, "bfile", 0, nFiles-1)
 		name := stems[fi] + ".go~"
 		content := srcOf[fi]
 		if rapid.Bool().Draw(t, "bother") {
@@ -461,7 +462,7 @@ func genCase(t *rapid.T) (Case, error) {
 		c.Files = append(c.Files, File{Name: name, Content: content})
 		g.mark("decoy:backup")
 	}
-	nSub := rapid.IntRange(0, 2).Draw(t, "nsub")
+	nSub := vgen.Range(t, "nsub", 0, 2)
 	for i := 0; i < nSub; i++ {
 		d := rapid.SampledFrom([]string{"sub", "testdata", "inner", "zsub", "Asub"}).Draw(t, "subdir")
 		p := d + "/x.go"
